@@ -333,6 +333,11 @@ func (o *structFieldsCBOR) FromCBOR(dm cbor.DecMode, data []byte) error {
 	}
 
 	if additionalInfo != 31 { // definite-length encoding
+		// each entry takes at least two bytes (key and value)
+		if mapLen > len(rest)/2 {
+			return errors.New("unexpected EOF")
+		}
+
 		o.Fields = make(map[int]cbor.RawMessage, mapLen)
 
 		for i := 0; i < mapLen; i++ {
